@@ -18,12 +18,15 @@ Part 2 (MCS)   for bases of S2/S3 the WCNFs are built exactly like the real call
 """
 from __future__ import annotations
 
+import collections
 import hashlib
 import itertools
 import json
 import multiprocessing as mp
 import os
+import pickle
 import random
+import traceback
 
 from .common import (
     ATOMS2,
@@ -109,7 +112,7 @@ def _enc_case(args):
     from inference.inference_manager import create_epistemic_state
     from inference.tseitin_transformation import TseitinTransformation
 
-    out = {"evaluations": 0, "fingerprints": [], "violations": [], "rejected": False}
+    out = {"evaluations": 0, "fingerprints": [], "violations": [], "rejected": False, "stats": collections.Counter()}
     c = mkcond(tb, ta)
     c.index = 1
     text = f"({tb}|{ta})"
@@ -146,6 +149,12 @@ def _enc_case(args):
         out["fingerprints"].append(_sha([text, kind]))
         assert isinstance(cnf, list) and all(isinstance(cl, list) and all(isinstance(l, int) and l for l in cl) for cl in cnf), cnf
         used = {abs(l) for cl in cnf for l in cl}
+        st = out["stats"]
+        st["cnf_empty"] += not cnf
+        st["cnf_with_auxiliaries"] += bool(used - set(ids.values()) - set(consts))
+        st["cnf_with_pinned_constant"] += bool(used & set(consts))
+        st["cnf_unsat_for_every_world"] += not any(truth[kind])
+        st["cnf_sat_for_every_world"] += all(truth[kind])
         # constants must not be free variables
         for vid in sorted(used & set(consts)):
             pin = [vid] if consts[vid] else [-vid]
@@ -276,7 +285,13 @@ def _constructions(rng, keys, nq, n_rec):
         upper = [k for k in rest if rng.random() < 0.7]
         xi = [k for k in upper if rng.random() < 0.4]
         hard = [["f", k] for k in xi] + [["nf", k] for k in upper if k not in xi] + [[kind, qi]]
-        out.append(dict(style="recursion", hard=hard, soft=soft, ignore=rest))
+        # lex_inf keeps the soft clauses of the higher layers in the WCNF (their keys are ignored)
+        style = rng.choice(["recursion", "recursion", "recursion-lex"])
+        out.append(dict(style=style, hard=hard, soft=soft, ignore=rest))
+    # (iv) system-w, extended mode, base without a finite layer: nf CNFs of every conditional and the
+    # falsification CNF of the query hard, no soft clause, every key ignored
+    for qi in range(nq):
+        out.append(dict(style="no-finite-layer", hard=[["nf", k] for k in keys] + [["qf", qi]], soft=[], ignore=list(keys)))
     return out
 
 
@@ -302,7 +317,32 @@ def _build_wcnf(es, con, qcnfs):
         [wcnf.append(s, weight=1) for j, softc in es["nf_cnf_dict"].items() if j not in ignored for s in softc]
         assert [j for j in es["nf_cnf_dict"] if j not in ignored] == con["soft"]
         return wcnf
-    # system_w._rec_inference (lex_inf builds the same clause sets)
+    if con["style"] == "recursion-lex":
+        # lex_inf._inference / _rec_inference: query first, the soft clauses of a layer stay in the
+        # formula when its f / nf CNFs are added as hard clauses for the next layer
+        w = WCNF()
+        [w.append(c) for c in cnf_of(con["hard"][-1])]
+        upper = [ref for _, ref in con["hard"][:-1]]
+        if upper:
+            for index in sorted(upper):
+                softc = es["nf_cnf_dict"][index]
+                [w.append(s, weight=1) for s in softc]
+            w = w.copy()
+            kinds = {ref: kind for kind, ref in con["hard"][:-1]}
+            for i in sorted(upper):
+                [w.append(c) for c in cnf_of([kinds[i], i])]
+        for index in con["soft"]:
+            softc = es["nf_cnf_dict"][index]
+            [w.append(s, weight=1) for s in softc]
+        return w
+    if con["style"] == "no-finite-layer":
+        # system_w._inference, weakly, len(partition) < 2
+        wcnf = WCNF()
+        for index in con["ignore"]:
+            [wcnf.append(c) for c in es["nf_cnf_dict"][index]]
+        [wcnf.append(c) for c in cnf_of(con["hard"][-1])]
+        return wcnf
+    # system_w._rec_inference
     hard_constraints = WCNF()
     for item in con["hard"][:-1]:
         [hard_constraints.append(c) for c in cnf_of(item)]
@@ -357,6 +397,51 @@ def _run_engine(sig, conds, queries, cons, engine):
     return results
 
 
+def _fork_run(sig, conds, queries, cons, engine):
+    """_run_engine in a forked child: a SAT engine that takes the interpreter down (SIGSEGV,
+    abort) must not take the pool worker with it.  -> results, or the number of the fatal signal"""
+    rfd, wfd = os.pipe()
+    pid = os.fork()
+    if pid == 0:
+        code = 0
+        try:
+            os.close(rfd)
+            try:
+                payload = ("ok", _run_engine(sig, conds, queries, cons, engine))
+            except BaseException:  # noqa  (a failure of the checker: re-raised in the parent)
+                payload = ("err", traceback.format_exc())
+            with os.fdopen(wfd, "wb") as f:
+                f.write(pickle.dumps(payload))
+        except BaseException:  # noqa
+            code = 3
+        finally:
+            os._exit(code)
+    os.close(wfd)
+    with os.fdopen(rfd, "rb") as f:
+        data = f.read()
+    _, status = os.waitpid(pid, 0)
+    if os.WIFSIGNALED(status):
+        return os.WTERMSIG(status)
+    if not data or os.WEXITSTATUS(status) != 0:
+        raise RuntimeError(f"c15: engine child exited with status {status} without a result")
+    tag, val = pickle.loads(data)
+    if tag == "err":
+        raise RuntimeError("c15: checker failure in the engine child\n" + val)
+    return val
+
+
+def _run_engine_safe(sig, conds, queries, cons, engine):
+    res = _fork_run(sig, conds, queries, cons, engine)
+    if not isinstance(res, int):
+        return res, False
+    # the interpreter died: find out for which constructions (each on a fresh state)
+    out = []
+    for con in cons:
+        r = _fork_run(sig, conds, queries, [con], engine)
+        out.append(f"EXC interpreter killed by signal {r} inside minimal_correction_subsets" if isinstance(r, int) else r[0])
+    return out, True
+
+
 def _judge(got, want):
     """-> list of (kind, observed)"""
     if isinstance(got, str):
@@ -378,7 +463,7 @@ def _mcs_case(args):
     from oracle.core import Sem
     from oracle.gen import cond as mkcond
 
-    out = {"evaluations": 0, "fingerprints": [], "violations": [], "rejected": False}
+    out = {"evaluations": 0, "fingerprints": [], "violations": [], "rejected": False, "stats": collections.Counter()}
     conds = _mk_conds(cond_texts)
     queries = [mkcond(b, a) for (b, a) in query_texts]
     sem = Sem(conds, [f for q in queries for f in (q.antecedence, q.consequence)], sig)
@@ -386,15 +471,21 @@ def _mcs_case(args):
     base_fp = [len(sem.sig)] + [[k, sorted(sem.ver[k]), sorted(sem.fal[k])] for k in sem.keys]
     wants = [_expected_mcs(sem, qsem, con) for con in cons]
     for engine in engines:
-        results = _run_engine(sig, conds, queries, cons, engine)
+        results, died = _run_engine_safe(sig, conds, queries, cons, engine)
         for ci, (con, got, (want, nsat)) in enumerate(zip(cons, results, wants)):
             out["evaluations"] += 1
+            st = out["stats"]
+            st["mcs_hard_unsatisfiable"] += nsat == 0
+            st["mcs_two_or_more_minimal_sets"] += len(want) >= 2
+            st["mcs_three_or_more_minimal_sets"] += len(want) >= 3
+            st["mcs_nonempty_minimal_set"] += any(want_set for want_set in want)
+            st["mcs_style_" + con["style"]] += 1
             if nsat >= 2:
                 hard_fp = [[k, sorted(qsem[r][1] if k == "qv" else qsem[r][2])] if k in ("qv", "qf") else [k, r] for k, r in con["hard"]]
-                out["fingerprints"].append(_sha([base_fp, hard_fp, con["soft"], engine]))
+                out["fingerprints"].append(_sha([base_fp, con["style"], hard_fp, con["soft"], engine]))
             for kind, observed in _judge(got, want):
                 # does the single construction reproduce on a fresh state?  (reporting aid)
-                single = _run_engine(sig, conds, queries, [con], engine)[0]
+                single = got if died else _run_engine_safe(sig, conds, queries, [con], engine)[0][0]
                 alone = any(k == kind for k, _ in _judge(single, want))
                 out["violations"].append(
                     dict(
@@ -450,7 +541,22 @@ def _probe_engine(name, conn):
             r.add_clause([-5])
             m = r.compute()
             seq.append((m is not None, r.cost))
-        conn.send(seq == [(True, 2), (True, 2), (False, 2)])
+        good = seq == [(True, 2), (True, 2), (False, 2)]
+        # degenerate formulas every caller can produce: no clause at all, hard only, soft only
+        for hard, soft in (([], []), ([[1, -2], [2]], []), ([], [[1], [-1]])):
+            w = WCNF()
+            for cl in hard:
+                w.append(cl)
+            for cl in soft:
+                w.append(cl, weight=1)
+            with RC2(w, solver=name) as r:
+                m = r.compute()
+                good = good and m is not None and r.cost == (1 if soft else 0)
+                r.add_clause([3, -4])
+                r.add_clause([4])
+                m = r.compute()
+                good = good and m is not None and 3 in m and 4 in m
+        conn.send(good)
     except BaseException:  # noqa
         conn.send(False)
     finally:
@@ -492,9 +598,16 @@ def _mcs_cases(rng, tier, engines):
     thorough = tier == "thorough"
     cases = []
 
+    core = [e for e in QUICK_ENGINES if e in engines]
+    others = [e for e in engines if e not in core]
+
     def add(sig, conds, queries, n_rec):
-        cons = _constructions(rng, list(conds.keys()), len(queries), n_rec)
-        cases.append((list(sig), texts_of(conds), [split_text(str(q)) for q in queries], cons, engines))
+        qtexts = [split_text(str(q)) for q in queries] + [("Top", "Top")]  # verified by every world
+        cons = _constructions(rng, list(conds.keys()), len(qtexts), n_rec)
+        # quick: the four core engines; thorough: the core engines on every base and every other
+        # usable engine on a rotating third of the bases
+        mine = core + (rng.sample(others, min(len(others), max(1, len(others) // 3))) if others else [])
+        cases.append((list(sig), texts_of(conds), qtexts, cons, mine))
 
     # S2
     singles = [(c,) for c in SEM_CONDS2]
@@ -515,6 +628,11 @@ def _mcs_cases(rng, tier, engines):
             conds = rnd_base(rng, atoms, rng.randint(2, 4), 3, consts=0.08).conditionals
             queries = [rnd_conditional(rng, atoms, 3, 0.08) for _ in range(2)]
             sig = atoms
+        elif i % 4 == 1:
+            # literal-like conditionals conflict often: several minimal correction sets
+            sig = ["a", "b", "c", "d"][: rng.choice([3, 4])]
+            conds = rnd_base(rng, sig, rng.randint(3, 5), 1, consts=0.05).conditionals
+            queries = [rnd_conditional(rng, sig, 1, 0.05) for _ in range(2)]
         else:
             sig, conds = s3_base(rng, consts=0.1)
             queries = [rnd_conditional(rng, sig, 2, 0.1) for _ in range(2)]
@@ -525,19 +643,26 @@ def _mcs_cases(rng, tier, engines):
 def run(tier, seed):
     rng = random.Random(seed)
     thorough = tier == "thorough"
-    engines = usable_engines() if thorough else list(QUICK_ENGINES)
+    engines = list(QUICK_ENGINES)
     if thorough:
-        engines = ["rc2"] + [e for e in engines if e != "rc2-g3"] + ["rc2-g3"]
+        # 'rc2' is the default spelling of rc2-g3; keep both spellings
+        engines = list(QUICK_ENGINES) + [e for e in usable_engines() if e not in QUICK_ENGINES]
 
     # Part 1
     s2 = [(ATOMS2, t) for t in _s2_realisations()]
     rnd = _rnd_texts(rng, 5000 if thorough else 300)
     enc_cases = s2 + rnd
-    r1 = merge(pmap(_enc_case, enc_cases))
+    raw1 = pmap(_enc_case, enc_cases)
+    r1 = merge(raw1)
 
     # Part 2
     mcs_cases = _mcs_cases(rng, tier, engines)
-    r2 = merge(pmap(_mcs_case, mcs_cases))
+    raw2 = pmap(_mcs_case, mcs_cases)
+    r2 = merge(raw2)
+    stats = collections.Counter()
+    for r in raw1 + raw2:
+        stats.update(r["stats"])
+    per_engine = collections.Counter(e for c in mcs_cases for e in c[4])
 
     res = {
         "evaluations": r1["evaluations"] + r2["evaluations"],
@@ -551,9 +676,12 @@ def run(tier, seed):
         "(3-4 atoms, depth <= 3, Top/Bottom, repeated atoms, tautologies, contradictions) x 5 CNFs (v, f, nf of "
         "belief_base_to_cnf; v, f of query_to_cnf) x every complete assignment of the atoms; "
         f"Part 2: {len(mcs_cases)} bases (S2 {'81 singles + 1500 sampled pairs' if thorough else '30 singles + 120 pairs sampled'}; "
-        f"S3 {'800' if thorough else '80'} random bases of <= 5 conditionals, a quarter of depth 3) x 2 queries x hard/soft/ignore "
-        "constructions (query v/f with all soft; v/f of conditional i with ignore=[i]; recursion-style f/nf of higher "
-        f"layers + query with soft = a layer) x engines {engines}"
+        f"S3 {'800' if thorough else '80'} random bases of <= 5 conditionals over 3-4 atoms: half depth 2, a quarter depth 3, a quarter depth 1) x 2 random queries + (Top|Top) x "
+        "hard/soft/ignore constructions (query v/f with all soft as in c-inference compile_and_encode_query; v/f of conditional i "
+        "with ignore=[i] as in compile_constraint; f/nf of higher layers + query with soft = a layer as in the system-w and "
+        "lex_inf recursions; nf of every key + query f without soft clauses as in extended system-w) x engines: "
+        f"{[e for e in engines if e in QUICK_ENGINES]} on every base"
+        + (f", each of {[e for e in engines if e not in QUICK_ENGINES]} on a seeded third of the bases" if thorough else "")
     )
     res["rule"] = (
         "Part 1: distinct (conditional text, CNF kind); Part 2: distinct (semantic base, semantic hard set, soft keys, engine) "
@@ -576,6 +704,8 @@ def run(tier, seed):
         "part1_fingerprints": len(r1["fingerprints"]),
         "part2_evaluations": r2["evaluations"],
         "part2_fingerprints": len(r2["fingerprints"]),
+        "bases_per_engine": dict(per_engine),
+        "stats": dict(stats),
     }
     return res
 
@@ -599,7 +729,7 @@ def replay(v):
         qsem = [sem.q(q) for q in queries]
         con = cons[inp["index"]]
         want, nsat = _expected_mcs(sem, qsem, con)
-        got = _run_engine(inp["signature"], conds, queries, cons, inp["engine"])[inp["index"]]
+        got = _run_engine_safe(inp["signature"], conds, queries, cons, inp["engine"])[0][inp["index"]]
         verdicts = _judge(got, want)
         hit = [o for k, o in verdicts if k == v["kind"]]
         return {
